@@ -257,6 +257,11 @@ func (c *DFACache) Clear() {
 	// Clear map (GC will reclaim memory)
 	c.states = make(map[StateKey]*State)
 	c.stateList = c.stateList[:0]
+	// State IDs are handed out again from the first row: the rows of the flat
+	// transition table must not survive, or a reused ID inherits the
+	// transitions of the state that had it before (Insert re-grows the table
+	// with InvalidState entries).
+	c.flatTrans = c.flatTrans[:0]
 	c.startTable = newStartTableFromByteMap(&c.startTable.byteMap)
 	c.nextID = StateID(c.stride)
 	c.clearCount = 0
@@ -287,6 +292,11 @@ func (c *DFACache) ClearKeepMemory() {
 		delete(c.states, k)
 	}
 	c.stateList = c.stateList[:0]
+	// State IDs are handed out again from the first row: the rows of the flat
+	// transition table must not survive, or a reused ID inherits the
+	// transitions of the state that had it before (Insert re-grows the table
+	// with InvalidState entries).
+	c.flatTrans = c.flatTrans[:0]
 	c.startTable = newStartTableFromByteMap(&c.startTable.byteMap)
 	c.nextID = StateID(c.stride)
 	c.clearCount++
@@ -343,6 +353,11 @@ func (c *DFACache) Reset() {
 		delete(c.states, k)
 	}
 	c.stateList = c.stateList[:0]
+	// State IDs are handed out again from the first row: the rows of the flat
+	// transition table must not survive, or a reused ID inherits the
+	// transitions of the state that had it before (Insert re-grows the table
+	// with InvalidState entries).
+	c.flatTrans = c.flatTrans[:0]
 	c.startTable = newStartTableFromByteMap(&c.startTable.byteMap)
 	c.nextID = StateID(c.stride)
 	c.clearCount = 0
